@@ -83,7 +83,7 @@ Serialize(cmds) ==
 (*   declared, count : the length accounting of the property               *)
 (***************************************************************************)
 ScriptInit == [phase |-> "len0", need |-> 0, buf |-> <<>>, declared |-> 0,
-               count |-> 0, cmds |-> <<>>, used |-> 0, lo |-> 0]
+               count |-> 0, cmds |-> <<>>, used |-> 0, lo |-> 0, vlen |-> 0]
 
 AfterItem(st) ==       \* called when an item is complete: decide op / done / fail
   IF st.count = st.declared THEN [st EXCEPT !.phase = "done"]
@@ -100,12 +100,13 @@ ScriptStep(st0, b) ==
   LET st == [st0 EXCEPT !.used = st0.used + 1]
   IN CASE st.phase = "len0" ->
             LET w == VarintWidth(b)
-            IN IF w = 0 THEN AfterItem([st EXCEPT !.declared = b])
+            IN IF w = 0 THEN AfterItem([st EXCEPT !.declared = b, !.vlen = 1])
                ELSE [st EXCEPT !.phase = "lenN", !.need = w, !.buf = <<>>]
        [] st.phase = "lenN" ->
             LET nb == Append(st.buf, b)
             IN IF st.need = 1
-               THEN AfterItem([st EXCEPT !.declared = LEToNatOrHuge(nb), !.buf = <<>>, !.need = 0])
+               THEN AfterItem([st EXCEPT !.declared = LEToNatOrHuge(nb), !.buf = <<>>, !.need = 0,
+                                         !.vlen = st.used])
                ELSE [st EXCEPT !.buf = nb, !.need = st.need - 1]
        [] st.phase = "op" ->
             IF b >= 1 /\ b <= 75
